@@ -125,9 +125,25 @@ func c17Random(c *Case, rng *Rng, stopAt int) {
 	defer w.close()
 	next := 10
 	nq := rng.Range(1, 3)
+	// stopAt < 0: the stop request comes during the set-up, before set-up op number -stopAt-1 (-1: the set is
+	// still empty — no queue has been created yet; queues created and started afterwards must be born stopped)
+	pre := 0
+	preStop := func() {
+		if stopAt < 0 && pre == -stopAt-1 && !w.stopped {
+			if len(w.order) == 0 {
+				c.Note("stop-at:before-the-first-queue")
+			} else {
+				c.Note("stop-at:during-set-up")
+			}
+			w.opStop()
+		}
+		pre++
+	}
 	for i := 1; i <= nq; i++ {
+		preStop()
 		w.opNew(i, true)
-		if rng.Chance(85) {
+		if rng.Chance(85) || (stopAt < 0 && i == 1) {
+			preStop()
 			w.opStart(i)
 		}
 	}
@@ -144,6 +160,9 @@ func c17Random(c *Case, rng *Rng, stopAt int) {
 		w.opDeliver(ts, rng.Bool(), "deliver")
 	}
 	total := stopAt + rng.Range(4, 14)
+	if stopAt < 0 {
+		total = rng.Range(4, 14)
+	}
 	for i := 0; i < total && w.bad == ""; i++ {
 		if i == stopAt {
 			c.Note("stop-at:" + strings.SplitN(w.qs[w.order[0]].at, ":", 2)[0])
@@ -230,6 +249,32 @@ func c17Random(c *Case, rng *Rng, stopAt int) {
 		return
 	}
 	w.oracleLog()
+	{
+		// the stop request reached the context of every queue of the set, whenever the queue was created
+		// (before the request, after it, after a request that found the set empty)
+		var heard []int
+		for _, n := range w.order {
+			if w.qs[n].q.VerifStopRequested() {
+				heard = append(heard, n)
+			}
+		}
+		// the model of WithContext / Stop / NewNamedQueue / Start (Model/SetContext) over the set-level operations
+		// of this case, in the order they were performed
+		var setOps []string
+		for _, l := range c.ops {
+			f := strings.Fields(l)
+			switch {
+			case len(f) == 1 && f[0] == "stop":
+				setOps = append(setOps, "S")
+			case len(f) >= 2 && f[0] == "new":
+				setOps = append(setOps, "n"+f[1])
+			case len(f) == 2 && f[0] == "start":
+				setOps = append(setOps, "s"+f[1])
+			}
+		}
+		c.Op("setctx ops="+joinStrs(setOps), fmt.Sprintf("requested=%v heard=%s", w.stopped, joinInts(heard)))
+		c.Oracle(fmt.Sprintf("stopheard want=%s heard=%s", w.names(), joinInts(heard)))
+	}
 	if rng.Chance(20) {
 		exitedAll := len(w.order) > 0
 		for _, n := range w.order {
@@ -536,7 +581,11 @@ func runC17(r *Run) {
 	}()
 	n := r.N(1200, 8000)
 	r.Cases(10, n, 0, func(c *Case, rng *Rng) {
-		c17Random(c, rng, rng.Range(0, 30))
+		stopAt := rng.Range(0, 30)
+		if rng.Chance(8) {
+			stopAt = -rng.Range(1, 4) // during the set-up: before the first queue exists, between NewNamedQueue and Start, ...
+		}
+		c17Random(c, rng, stopAt)
 	})
 	r.Cases(50000, r.N(300, 3000), 0, func(c *Case, rng *Rng) { c17Free(c, rng) })
 	// the wait of Shutdown(): 2..maxq queues, each of them in turn the one that is not finished, in the middle
@@ -573,11 +622,11 @@ func runC17(r *Run) {
 	<-cronDone
 	if r.Thorough() {
 		// every stop position for a set of schedule seeds
-		const seeds, positions = 150, 41
+		const seeds, positions, early = 150, 45, 4 // positions -4..-1 are set-up positions (-1: before the first queue)
 		r.Cases(100000, seeds*positions, 0, func(c *Case, _ *Rng) {
 			k := c.Idx - 100000
 			rng := NewRng(r.Seed*7919 + uint64(k/positions)) // same schedule, different stop position
-			c17Random(c, rng, k%positions)
+			c17Random(c, rng, k%positions-early)
 		})
 		// exhaustive small scope: every interleaving of two workers (7 steps each) x every stop position
 		var masks []uint
@@ -596,6 +645,6 @@ func runC17(r *Run) {
 		})
 		r.Exhaust = true
 		r.Extra["exhaustive_scope"] = fmt.Sprintf("all %d interleavings of two queue workers (7 steps each, one task each) x 15 stop positions", len(masks))
-		r.Extra["stop_positions"] = fmt.Sprintf("every stop position 0..%d for %d schedule seeds", positions-1, seeds)
+		r.Extra["stop_positions"] = fmt.Sprintf("every stop position -%d..%d (negative: during the set-up, -1 = before the first queue exists) for %d schedule seeds", early, positions-early-1, seeds)
 	}
 }
